@@ -39,12 +39,11 @@ PROP = {
         "what a failed INSERT/UPDATE/DELETE leaves behind is C03: statements after a failed DML statement of a case are not compared",
         "errors reach the public API as text (TaskError::TaskFailed(String)); their class is read from the prefixes produced by the error enums' Display impls",
     ],
-    "partial": "parser: proved at the token level (parse_printMin: for every printable expression the parser on the extracted "
-               "table reads the minimal-parentheses rendering back as the same tree; parse_printFull; table_ordered); the step "
-               "text <-> tokens (lexer: lex_render_statement) is only tested by engine `parse` (6 000 / 100 000 expressions per run). "
-               "sql: the laws are proved for the operators the reference evaluator is built from and for statement-level DELETE "
-               "(select_pipeline and from_join_is_joinPure tie the evaluator to the operators); the agreement of the engine with the "
-               "evaluator is tested, not proved.",
+    "partial": "parser: text -> AST is proved end to end for the expression grammar (parse_text_roundtrip = lex_render_tokens + "
+               "parse_printMin + table_ordered); CASE, function calls and sub-queries are not in the parser model. "
+               "sql: the laws are proved for the operators the reference evaluator is built from and for statement-level "
+               "INSERT/UPDATE/DELETE (select_pipeline and from_join_is_joinPure tie the evaluator to the operators); the agreement "
+               "of the engine with the evaluator is tested, not proved.",
     "trusted": ["SQL printer (minimal parentheses), result canonicaliser and ORDER BY sortedness check of the Rust harness",
                 "Lean `Float` division only for printing non-integral AVG results (no theorem mentions it)"],
 }
